@@ -264,6 +264,12 @@ class kMinPathError(pathmodel.AbstractPathModelDAG):
         if len(self.path_length_factors) > 0 and self.weight_type == float:
             utils.logger.error(f"{__name__}: Error scale factors are only allowed for integer weights.")
             raise ValueError("Error scale factors are only allowed for integer weights.")
+        if len(self.path_length_ranges) > 0 and self.optimization_options.get("allow_empty_paths", False) \
+                and not any(path_length_range[0] <= 0 <= path_length_range[1] for path_length_range in self.path_length_ranges):
+            # An empty path (an unused weight of the superset) has length 0, which must lie in some range:
+            # its factor is irrelevant, as the path has no edge
+            self.path_length_ranges = list(self.path_length_ranges) + [[0, 0]]
+            self.path_length_factors = list(self.path_length_factors) + [1]
 
         # Bounds of the path slacks and of the slacks scaled by the path length factors: an error of at most
         # self.w_max scaled by a factor below 1 needs a slack of self.w_max / factor, and the scaled slacks
